@@ -4,7 +4,7 @@ from common import *
 ID = "C27"
 GEN = []
 THEOREMS = ["C27_plain_store_partial", "C27_plain_emit_partial", "C27_plain_quote_unquote_partial", "C27_decode_plain",
-            "C27_refuted_length", "C27_refuted_unquote_decimal", "C27_refuted_private_use", "C27_refuted_escaped_space",
+            "C27_refuted_length", "C27_refuted_quote_unquote_newline", "C27_refuted_private_use", "C27_refuted_escaped_space",
             "C27_refuted_invalid_code_point", "C27_refuted_statement"]
 COQ_HEADER = ("From Coq Require Import String List NArith ZArith.\nFrom RV Require Import Run.C27.\n"
               "Import ListNotations.\nLocal Open Scope list_scope.")
@@ -22,7 +22,7 @@ ASSUMPTIONS = ["only double-quoted source literals without interpolation and wit
                "theorems cover literals without escapes (the class on which rsass is right); everything else is tied by correspondence only"]
 
 PLAIN = list("abcdefABCDEF0123456789xyzXYZ  -_.!?,:(){}/+*") + ["é", "中", "\U0001F600", "\ue000", "\uf8ff", "\U000F0000", "\u00a0", "\t", "ß"]
-HEXCP = [0x41, 0x7A, 0xE9, 0x22, 0x27, 0x5C, 0x0A, 0x1F, 0x7F, 0x9F, 0x00, 0x20, 0x09, 0x2D, 0xD800, 0x110000, 0x1F600, 0xE000, 0x10FFFF, 0x30]
+HEXCP = [0x41, 0x7A, 0xE9, 0x22, 0x27, 0x5C, 0x0A, 0x0D, 0x0C, 0x1F, 0x7F, 0x9F, 0x00, 0x20, 0x09, 0x2D, 0xD800, 0x110000, 0x1F600, 0xE000, 0x10FFFF, 0x30]
 CHARESC = ["x", "-", "\\", " ", "!", "é", "z", "G", "_", "~"]
 HEXD = set("0123456789abcdefABCDEF")
 
@@ -141,7 +141,7 @@ def coq_term(c, io):
 
 
 KCLASS = {0: None, 1: "known_C27_K1_length_counts_stored_text", 2: "known_C27_K2_token_denotes_other_string",
-          3: "known_C27_K3_quote_unquote_with_escapes"}
+          3: "known_C27_K3_quote_unquote_line_break"}
 
 
 def judge(c, io, r):
@@ -172,7 +172,7 @@ LEVEL_TEXT = ("proof (partial): the double-quoted literal reader of parser/strin
               "escapes the stored text, the emitted token and quote(unquote()) all denote the literal's string (induction); "
               "five refuted clauses carry machine-checked witnesses; the model is tied to rsass by code-point-exact comparison "
               "of the printed token, str-length, quote(unquote()) and unquote() on generated literals")
-LEVEL_NOTE = ("the general statement is false in several ways on the pinned tree (length counts stored escapes; unquote reads hex as "
-              "decimal; private-use characters are written as unterminated hex escapes; an escaped space loses the space and can "
+LEVEL_NOTE = ("the general statement is false in several ways (length counts stored escapes; quote does not re-escape line breaks "
+              "[the base-ten unquote F26b was fixed by cf6ac61]; private-use characters are written as unterminated hex escapes; an escaped space loses the space and can "
               "leave a dangling backslash; surrogate/out-of-range escapes are read as text): known findings")
 TECHNIQUE = "Coq proof on the escape-free class + refutation witnesses + differential correspondence with a CSS-token decoder in Coq"
